@@ -55,6 +55,35 @@ def gen(tier, seed):
                   "    return mismatch_raises(%r, a, b, 'A', 'B', (s1, t1, q1), (s2, t2, q2))" % op, ""]
         conds.append({"fn": fn, "what": "%s of quantities with different dimension vectors raises (dimension vectors symbolic in [-3,3]^3)" % op, "sig": "c05-mismatch-%s" % op,
                       "structure": "A/B", "timeout": 120})
+    # modulo (scalar, symbolic magnitudes of either sign) and array pairings (payload in numpy: values from a lattice, indices symbolic)
+    for pairing in ("vv", "vn", "nv"):
+        for (sa, sb) in (syspairs[:2] if tier == "quick" else syspairs):
+            k += 1
+            fn = "h_mod_%s_%s%s_%d" % (pairing, sa, sb, k)
+            lines += ["def %s(ia: int, ib: int) -> bool:" % fn, '    """', "    pre: 0 <= ia <= 4 and 0 <= ib <= 4", "    post: _", '    """',
+                      "    return mod_lattice(%r, ia, ib, %r, %r, %r)" % (pairing, sa, sb, DIMS[k % len(DIMS)]), ""]
+            conds.append({"fn": fn, "what": "%% [%s]: result has the divisor's sign, |r| < |m| and a - r is a multiple of m, in SI, for every pair of a 5-point lattice with both signs (systems %s/%s)" % (pairing, sa, sb),
+                          "sig": "c05-mod-%s" % pairing, "structure": "%s/%s" % (sa, sb), "timeout": 120})
+    for op in ("add", "sub", "mul", "div", "mod"):
+        for pairing in ("av", "va", "aa", "an", "na"):
+            k += 1
+            sa, sb = syspairs[k % len(syspairs)]
+            fn = "h_arr_%s_%s_%d" % (op, pairing, k)
+            lines += ["def %s(ia: int, ib: int, ic: int) -> bool:" % fn, '    """', "    pre: 0 <= ia <= 4 and 0 <= ib <= 2 and 0 <= ic <= 4", "    post: _", '    """',
+                      "    return array_op(%r, %r, ia, ib, ic, %r, %r, %r)" % (op, pairing, sa, sb, DIMS[k % len(DIMS)]), ""]
+            conds.append({"fn": fn, "what": "UnitArray %s [%s] agrees element-wise with the scalar operator for every value combination of a 5-point lattice incl. negatives and zero (systems %s/%s)" % (op, pairing, sa, sb),
+                          "sig": "c05-array-%s-%s" % (op, pairing), "structure": "%s/%s" % (sa, sb), "timeout": 300})
+    lines += ["def h_arr_unary(ia: int, ib: int) -> bool:", '    """', "    pre: 0 <= ia <= 4 and 0 <= ib <= 4", "    post: _", '    """', "    return array_unary(ia, ib, 'B', (1, -1, 0))", ""]
+    conds.append({"fn": "h_arr_unary", "what": "UnitArray unary -, +, abs element-wise", "sig": "c05-array-unary", "structure": "B"})
+    for op in ("add", "sub", "mul", "div", "mod"):
+        fn = "h_arr_len_%s" % op
+        lines += ["def %s(n1: int, n2: int) -> bool:" % fn, '    """', "    pre: 0 <= n1 <= 3 and 0 <= n2 <= 3", "    post: _", '    """', "    return array_length_mismatch(%r, n1, n2)" % op, ""]
+        conds.append({"fn": fn, "what": "UnitArray %s UnitArray raises iff the lengths (0..3) differ" % op, "sig": "c05-array-length", "structure": "A/B"})
+    for op in ("add", "sub", "mod"):
+        fn = "h_arr_dim_%s" % op
+        lines += ["def %s(s: int, t: int, q: int) -> bool:" % fn, '    """', "    pre: -2 <= s <= 2 and -2 <= t <= 2 and -2 <= q <= 2 and (s, t, q) != (1, 0, 0)", "    post: _", '    """',
+                  "    return array_dim_mismatch(%r, s, t, q)" % op, ""]
+        conds.append({"fn": fn, "what": "UnitArray %s with a different dimension vector raises (array/array, array/value, value/array)" % op, "sig": "c05-array-dim", "structure": "A/B", "timeout": 180})
     fracs = [(1, 2), (1, 3), (2, 3), (-1, 2), (3, 2), (2, 1)] if tier == "quick" else [(n, d) for n in range(-3, 4) for d in (1, 2, 3)]
     for (num, den) in fracs:
         fn = "h_pow_fraction_%s_%d" % (str(num).replace("-", "m"), den)
@@ -69,7 +98,7 @@ def gen(tier, seed):
 def run(rec):
     rec.assume("Python floats are modelled as exact reals (CrossHair real-float driver vt/chreal.py); conversion constants are the module's own decimal floats, so SI agreement is asserted to 1e-9 relative; counterexamples are replayed in plain CPython")
     rec.assume("magnitudes symbolic in (-1e6, 1e6) (divisors and power bases in (1e-3, 1e6)); unit systems from a catalogue covering every base symbol; dimension vectors from a catalogue, symbolic in [-3,3]^3 for the error clauses")
-    rec.assume("UnitArray pairings: the payload is numpy, which realises symbols; they are covered element-wise with solver-chosen magnitudes per path (not exhaustive in the magnitudes) in the array conditions")
+    rec.assume("UnitArray pairings: the payload is numpy, which realises symbols; array operators are compared element-wise with the scalar operators (whose SI law is proved for symbolic magnitudes) on EVERY value combination of a 5-point lattice with negative, zero and fractional values (exhaustive on the lattice, not beyond)")
     for fn in ("UnitValue.__add__/__sub__/__mul__/__truediv__/__mod__/__pow__/__neg__/__abs__/__lt__/__le__/__gt__/__ge__/__eq__", "UnitValue._sum/_product/_modulo", "Units.multiply/invert/raiseto",
                "convert_unitvalue/convert_value/compute_conversion_factor"):
         rec.encoded(fn)
